@@ -19,6 +19,10 @@ import (
 type olAtom struct {
 	Sym string
 	I   ssa.Instruction
+	// Alts: the atom is one of several symbols, chosen by the path (a %d of a value that is 0 on one branch and 1 on the
+	// other); G: the conditions of this atom when they are not simply those of its instruction's block
+	Alts []string
+	G    []string
 }
 
 type olNFA struct {
@@ -107,7 +111,13 @@ func cfgNFA(fn *ssa.Function, atoms func(ssa.Instruction) []olAtom) *olNFA {
 		for _, i := range b.Instrs {
 			for _, a := range atoms(i) {
 				s := n.state()
-				n.tr[cur][a.Sym] = append(n.tr[cur][a.Sym], s)
+				if len(a.Alts) > 0 {
+					for _, sym := range a.Alts {
+						n.tr[cur][sym] = append(n.tr[cur][sym], s)
+					}
+				} else {
+					n.tr[cur][a.Sym] = append(n.tr[cur][a.Sym], s)
+				}
 				cur = s
 			}
 		}
@@ -224,7 +234,7 @@ func formatAtoms(i ssa.Instruction, f string, args []string) []olAtom {
 	k := 0
 	for p := 0; p < len(f); p++ {
 		if f[p] != '%' {
-			out = append(out, olAtom{"'" + f[p:p+1] + "'", i})
+			out = append(out, olAtom{Sym: "'" + f[p:p+1] + "'", I: i})
 			continue
 		}
 		rest := f[p:]
@@ -234,23 +244,23 @@ func formatAtoms(i ssa.Instruction, f string, args []string) []olAtom {
 		}
 		switch {
 		case strings.HasPrefix(rest, "%%"):
-			out = append(out, olAtom{"'%'", i})
+			out = append(out, olAtom{Sym: "'%'", I: i})
 			p++
 		case strings.HasPrefix(rest, "%d"):
-			out = append(out, olAtom{"num(" + arg + ")", i})
+			out = append(out, olAtom{Sym: "num(" + arg + ")", I: i})
 			k++
 			p++
 		case strings.HasPrefix(rest, "%02d"):
-			out = append(out, olAtom{"num02(" + arg + ")", i})
+			out = append(out, olAtom{Sym: "num02(" + arg + ")", I: i})
 			k++
 			p += 3
 		default:
-			out = append(out, olAtom{"?fmt(" + rest + ")", i})
+			out = append(out, olAtom{Sym: "?fmt(" + rest + ")", I: i})
 			return out
 		}
 	}
 	if k != len(args) {
-		out = append(out, olAtom{"?fmt(operand count)", i})
+		out = append(out, olAtom{Sym: "?fmt(operand count)", I: i})
 	}
 	return out
 }
